@@ -1,10 +1,23 @@
 #!/bin/bash
 # MANIFEST.setup_cmd: builds the Lean model, all drivers and all proof modules from files on disk.
-set -e
-cd "$(dirname "$0")/../lean"
-TARGETS="RomeaModel RomeaProofs"
+# Every check rebuilds (incrementally) what it needs and reports a broken obligation itself, so a
+# failing module here is reported but does not abort the setup of the others.
+cd "$(dirname "$0")/../lean" || exit 1
+rc=0
+lake build RomeaModel 2>&1 | tail -3 || rc=1
 for f in Drivers/C*.lean; do
-  [ -f "$f" ] && TARGETS="$TARGETS drv_$(basename "$f" .lean | tr 'A-Z' 'a-z')"
+  [ -f "$f" ] || continue
+  t="drv_$(basename "$f" .lean | tr 'A-Z' 'a-z')"
+  lake build "$t" 2>&1 | tail -1
 done
-echo "lake build $TARGETS"
-lake build $TARGETS 2>&1 | tail -5
+for f in RomeaProofs/Properties/C*.lean; do
+  [ -f "$f" ] || continue
+  m="RomeaProofs.Properties.$(basename "$f" .lean)"
+  if ! lake build "$m" > /tmp/romea_setup_$$.log 2>&1; then
+    echo "setup: $m does NOT build:"; grep -E "^error" /tmp/romea_setup_$$.log | head -5
+  else
+    echo "setup: $m ok"
+  fi
+  rm -f /tmp/romea_setup_$$.log
+done
+exit 0
